@@ -1097,7 +1097,7 @@ def finish_C15(tier, seed, P, native, results, scratch):
                                  script={'ops': []}, stack=[], trace=[], subject=None, rec_same={}, opts=None, scale_family=f))
     # native confirmation at scale: a ring of 200 000 objects on a 128 KiB stack, and time ratio N vs 2N
     scale = {}
-    for n in (100000, 200000):
+    for n in (50000, 200000):
         try:
             pr = subprocess.run([native.bin, '--ring', str(n), '128'], capture_output=True, text=True, timeout=600)
             m = re.search(r'ring ok n=(\d+) destroyed=(\d+) ms=(\d+)', pr.stdout)
@@ -1105,7 +1105,7 @@ def finish_C15(tier, seed, P, native, results, scratch):
         except subprocess.TimeoutExpired:
             scale[n] = dict(rc='timeout', destroyed=None, ms=None)
     hub = {}
-    for n in (40000, 80000):
+    for n in (20000, 80000):
         best = None
         for rep in range(3):      # best of three: timing noise only ever makes a run slower
             try:
@@ -1124,13 +1124,14 @@ def finish_C15(tier, seed, P, native, results, scratch):
     for n, s in hub.items():
         if s['rc'] != 0 or s['destroyed'] != n:
             bad = 'hub of %d objects on a 128 KiB stack: rc=%s destroyed=%s' % (n, s['rc'], s['destroyed'])
-    if not bad and hub[40000]['ms'] and hub[80000]['ms'] and hub[80000]['ms'] > 3.2 * max(hub[40000]['ms'], 30):
-        bad = 'time is not linear: hub of 40000 objects %d ms, 80000 objects %d ms' % (hub[40000]['ms'], hub[80000]['ms'])
+    if not bad and hub[20000]['ms'] and hub[80000]['ms'] and hub[80000]['ms'] > 1000 and hub[80000]['ms'] > 9.0 * max(hub[20000]['ms'], 40):
+        bad = 'time is not linear: hub of 20000 objects %d ms, 80000 objects %d ms' % (hub[20000]['ms'], hub[80000]['ms'])
     for n, s in scale.items():
         if s['rc'] != 0 or s['destroyed'] != n:
             bad = 'ring of %d objects on a 128 KiB stack: rc=%s destroyed=%s' % (n, s['rc'], s['destroyed'])
-    if not bad and scale[100000]['ms'] and scale[200000]['ms'] and scale[200000]['ms'] > 4.0 * max(scale[100000]['ms'], 50):
-        bad = 'time is not linear: %d ms for 100000 objects, %d ms for 200000' % (scale[100000]['ms'], scale[200000]['ms'])
+    # sizes differ by a factor of 4: linear cost gives about 4-6x (hash table growth, cache effects), quadratic 16x
+    if not bad and scale[50000]['ms'] and scale[200000]['ms'] and scale[200000]['ms'] > 1000 and scale[200000]['ms'] > 9.0 * max(scale[50000]['ms'], 40):
+        bad = 'time is not linear: %d ms for 50000 objects, %d ms for 200000' % (scale[50000]['ms'], scale[200000]['ms'])
     if bad:
         viol.append(dict(prop='C15', clause='scale', name='native ring at scale', model={}, layout=None, tags=[], detail=bad, script={'ops': []}, stack=[], trace=[],
                          subject=None, rec_same={}, opts=None, confirmed_by='native scale run: ' + bad, concrete={'ops': [{'op': 'note'}]}))
@@ -1142,7 +1143,7 @@ def finish_C15(tier, seed, P, native, results, scratch):
 
 
 PROPS['C15'] = dict(items=items_C15, finish=finish_C15,
-                    bounds={'quick': {'solver_side': 'rings, cliques, rings with a chord, rings with a self adoption of N = 1..4: maximum nesting depth of Rc::drop frames and of interpreter frames must not grow with N; objects expanded per trace <= 2N', 'native_side': 'ring of 100 000 and 200 000 objects collected on a thread with a 128 KiB stack; time ratio'},
+                    bounds={'quick': {'solver_side': 'rings, cliques, rings with a chord, rings with a self adoption of N = 1..4: maximum nesting depth of Rc::drop frames and of interpreter frames must not grow with N; objects expanded per trace <= 2N', 'native_side': 'ring of 50 000 and 200 000 objects and hub of 20 000 and 80 000 objects collected on a thread with a 128 KiB stack; all destroyed; time ratio for the 4x larger group must stay below 9 (linear about 4-6, quadratic 16; best of three runs)'},
                             'thorough': {'solver_side': 'N = 1..6'}},
                     outside=OUTSIDE + ['sizes beyond N=4 (6) are covered only by the native scale run, which is a confirmation, not a solver verdict'],
                     vacuity=vac_paths(), replay_oracles=['C15'])
